@@ -3,6 +3,8 @@ from . import c08
 
 
 def run(check, pool, Task):
+    from . import validate
+    validate.apply(check, ['data2coord', 'hilbert'])
     thorough = check.tier == 'thorough'
     cap = 600
     ps = (1, 2, 3, 7, 10, 15, 20, 31) if not thorough else tuple(range(1, 32))
